@@ -52,9 +52,9 @@ Definition check_case (c : case) : N :=
     let q' := effective_auth (if op then Some (bearer_write tok_OP) else None)
                              (if def then Some (bearer_write tok_DEF) else None) q in
     let want := if op then s_bearer ++ tok_OP
-                else match trim_blanks preset with
+                else match preset with
                      | [] => if def then s_bearer ++ tok_DEF else []
-                     | t => t
+                     | _ => trim_blanks preset      (* a header was set: the default credential stays away *)
                      end in
     verdict (bytes_eqb seen (get_header s_authorization q')) (bytes_eqb seen want)
   end.
